@@ -6,8 +6,8 @@ rows = []
 for f in sorted(glob.glob(os.path.join(V, 'seeded', '*', 'meta.json'))):
     d = json.load(open(f))
     esc = lambda s: s.replace('|', '/').replace('\n', ' ')
-    rows.append('| %s | %s | %s | %s |' % (d['id'], esc(d['needs_to_manifest']), 'caught' if d['detection']['caught'] else '**missed**', esc(d['detection']['by'])))
-n = len(rows); c = sum('| caught |' in r for r in rows)
+    rows.append('| %s | %s | %s | %s |' % (d['id'], esc(d['needs_to_manifest']), 'n/a (superseded)' if d.get('status') == 'superseded' else 'caught' if d['detection']['caught'] else '**missed**', esc(d['detection']['by'])))
+n = sum('| n/a (superseded) |' not in r for r in rows); c = sum('| caught |' in r for r in rows)
 tab = '| seed | needs, to manifest | verdict of `bin/check <ID> --tier quick` with the patch applied to /repo | by / why |\n|---|---|---|---|\n' + '\n'.join(rows) + '\n\n%d of %d seeded changes are caught.\n' % (c, n)
 p = os.path.join(V, 'DESIGN.md'); s = open(p).read()
 s = re.sub(r'(<!-- SEED-TABLE -->\n).*?(<!-- /SEED-TABLE -->)', lambda m: m.group(1) + tab + m.group(2), s, flags=re.S)
